@@ -202,15 +202,16 @@ func runScript(idx int, sc script, res *vh.Result) (completed bool) {
 	replay := map[string]any{"script": sc, "seed": vh.Seed(), "index": idx}
 
 	var (
-		w         io.WriteCloser
-		cur       []byte
-		expected  []delivery
-		wire      []byte
-		ms, rs    normState
-		val       = &streamValidator{fromClient: !isServer, negotiated: sc.Neg}
-		ops       []string
-		fragments bool
-		interleav bool
+		w            io.WriteCloser
+		cur          []byte
+		expected     []delivery
+		wire         []byte
+		ms, rs       normState
+		val          = &streamValidator{fromClient: !isServer, negotiated: sc.Neg}
+		ops          []string
+		fragments    bool
+		pendingDrift string
+		interleav    bool
 	)
 	bad := func(sig, what string) {
 		res.Violate("C30", sig, fmt.Sprintf("%s [%s, script #%d step ops: %s]", what, cfgs, idx, strings.Join(ops, " ")), replay)
@@ -234,7 +235,15 @@ func runScript(idx int, sc script, res *vh.Result) (completed bool) {
 				} else {
 					w = nil
 				}
-			case "Write":
+			case "Write", "Close":
+				if w == nil { // only after an earlier disagreement with the model
+					err = fmt.Errorf("no writer")
+					return nil
+				}
+				if st.Op == "Close" {
+					err = w.Close()
+					return nil
+				}
 				data = genPayload(rng, st.N)
 				if isCtl(sc.currentType(si)) {
 					data = genControlAt(rng, sc.currentType(si), st.N, len(cur), 1000)
@@ -261,8 +270,6 @@ func runScript(idx int, sc script, res *vh.Result) (completed bool) {
 				if err == nil && n != len(data) {
 					bad("write:short-count", fmt.Sprintf("Write of %d bytes returned n=%d with a nil error", len(data), n))
 				}
-			case "Close":
-				err = w.Close()
 			case "WriteMessage":
 				conn.EnableWriteCompression(st.Z)
 				if isCtl(st.T) {
@@ -323,14 +330,15 @@ func runScript(idx int, sc script, res *vh.Result) (completed bool) {
 				interleav = true
 			}
 		}
+		// disagreement with the model about HOW the message was cut into frames or about a result is not by
+		// itself a violation of the property (any valid framing that round-trips is fine): it is reported as
+		// drift unless the validator / the round trips below fail
 		mN, rN := ms.norm(st.Out), rs.norm(realA)
-		if d := diffFrames(mN, rN); d != "" {
-			bad(fmt.Sprintf("frames:%s:%s:%s", st.Op, sc.Side, d), fmt.Sprintf("step %d %s: frames on the wire %s, the model of the writer emits %s", si, st.Op, fstr(realA), fstr(st.Out)))
-			return false
+		if d := diffFrames(mN, rN); d != "" && pendingDrift == "" {
+			pendingDrift = fmt.Sprintf("step %d %s: frames on the wire %s, the model of the writer emits %s (difference: %s)", si, st.Op, fstr(realA), fstr(st.Out), d)
 		}
-		if st.Res != "any" && (err != nil) != (st.Res == "err") {
-			res.Drift("C30", fmt.Sprintf("step %d %s returned err=%v, model result %s [%s script #%d: %s]", si, st.Op, err, st.Res, cfgs, idx, strings.Join(ops, " ")), replay)
-			return false
+		if st.Res != "any" && (err != nil) != (st.Res == "err") && pendingDrift == "" {
+			pendingDrift = fmt.Sprintf("step %d %s returned err=%v, model result %s", si, st.Op, err, st.Res)
 		}
 		// --- what the peer must receive
 		if st.Op == "Write" {
@@ -359,6 +367,10 @@ func runScript(idx int, sc script, res *vh.Result) (completed bool) {
 	got, rerr := readAll(wire, !isServer, sc.Neg)
 	if sig, what := compareDeliveries(expected, got, true); sig != "" {
 		bad("roundtrip-reader:"+sig, fmt.Sprintf("real Conn reader (%s side): %s (final read error: %v)", map[bool]string{true: "client", false: "server"}[isServer], what, rerr))
+		return false
+	}
+	if pendingDrift != "" {
+		res.Drift("C30", fmt.Sprintf("%s [%s script #%d: %s]", pendingDrift, cfgs, idx, strings.Join(ops, " ")), replay)
 		return false
 	}
 	if fragments || interleav {
@@ -414,9 +426,6 @@ func compareDeliveries(exp, got []delivery, viaReader bool) (string, string) {
 				k++
 			}
 			return "bytes", fmt.Sprintf("message %d (type %d): %d bytes received, %d written, first difference at offset %d", i, e.Type, len(g.Data), len(e.Data), k)
-		}
-		if !viaReader && e.Compressed != g.Compressed {
-			return "rsv1", fmt.Sprintf("message %d: compressed on the wire = %v, written with compression = %v", i, g.Compressed, e.Compressed)
 		}
 	}
 	if len(exp) != len(got) {
@@ -474,6 +483,10 @@ func modeWrite(in json.RawMessage, res *vh.Result) error {
 
 func main() {
 	vh.Main(map[string]vh.Mode{
-		"write": modeWrite,
+		"write":          modeWrite,
+		"handshake":      modeHandshake,
+		"closecodes":     modeCloseCodes,
+		"transportclose": modeTransportClose,
+		"closereg":       modeCloseReg,
 	})
 }
